@@ -26,6 +26,31 @@ def session_hash(session, tool=AGENT_NAME):
     return hashlib.sha256(("%s:%s" % (tool, session)).encode()).hexdigest()[:16]
 
 
+def _ignored_signals():
+    """Signals the harness itself was started with SIG_IGN for (nohup, some CI runners): every simulated process would
+    inherit that, and a git that cannot be killed by SIGHUP behaves differently from one that can.  The simulated
+    world starts every process with default dispositions."""
+    out = []
+    for sig in (signal.SIGHUP, signal.SIGINT, signal.SIGQUIT, signal.SIGTERM, signal.SIGUSR1, signal.SIGUSR2, signal.SIGALRM):
+        try:
+            if signal.getsignal(sig) == signal.SIG_IGN:
+                out.append(sig)
+        except (ValueError, OSError):
+            pass
+    return out
+
+
+_IGNORED = _ignored_signals()
+
+
+def _reset_signals():
+    for sig in _IGNORED:
+        signal.signal(sig, signal.SIG_DFL)
+
+
+PREEXEC = _reset_signals if _IGNORED else None
+
+
 class Result:
     __slots__ = ("code", "out", "err", "hang")
 
@@ -134,7 +159,7 @@ class World:
         try:
             p = subprocess.Popen(argv, cwd=cwd, env=env, stdin=subprocess.PIPE,
                                  stdout=subprocess.PIPE, stderr=subprocess.PIPE,
-                                 start_new_session=True)
+                                 start_new_session=True, preexec_fn=PREEXEC)
         except OSError as ex:
             return Result(127, "", str(ex))
         try:
